@@ -89,10 +89,19 @@ func main() {
 	A := func(amf, ran int64) ev.M { return ev.M{"amf": te.Num(amf), "ran": te.Num(ran)} }
 
 	curPlmn := []byte{0x02, 0xf8, 0x39} // ngapTestpacket's initial TestPlmn
+	forceBits, forceOnes := uint64(0), false
 	setup := func() {
 		curPlmn = plmn()
 		bits := uint64(22 + rg.Intn(11))
+		if forceBits != 0 {
+			bits = forceBits
+		}
 		gid := ev.Bytes(rg, int(bits+7)/8)
+		if forceOnes {
+			for i := range gid {
+				gid[i] = 0xff
+			}
+		}
 		if bits%8 != 0 {
 			gid[len(gid)-1] &= 0xff << uint(8-bits%8)
 		}
@@ -228,6 +237,12 @@ func main() {
 					PDUSessionResourceReleaseCommandTransfer: tp.GetPDUSessionResourceReleaseCommandTransfer()}}})
 		}))
 	}
+	// every gNB id bit length 22..32 with all bits set (the id must arrive bit for bit, whatever the padding of the last octet)
+	for b := uint64(22); b <= 32; b++ {
+		forceBits, forceOnes = b, true
+		setup()
+	}
+	forceBits, forceOnes = 0, false
 	// the PLMN follows every further NG Setup of the same process (a second and a third announcement, also in the quick tier)
 	for k := 0; k < 2; k++ {
 		setup()
